@@ -86,7 +86,9 @@ def _job(arg):
             if st_seed < 0:
                 st["regs"]["F"] |= 0xA4          # bits 2-7 of F set (they can get there through POPU F / POPS F / RETI)
             regs, mem = en.build_case(enc, st)
-            rec = compare_case(eh, vh, regs, mem, addr_only=st_seed >= BLOCK)
+            # every other state is set up with the flags written once more one by one (FC, FZ) after F: the same architectural
+            # state reached through the flag aliases of either register file
+            rec = compare_case(eh, vh, regs, mem, hidden=({"flagwise": True} if rid % 2 == 1 else None), addr_only=st_seed >= BLOCK)
             rec.update({"id": rid, "b": list(enc) + [0] * (8 - len(enc)), "n": len(enc), "seed": st_seed})
             recs.append(rec)
     finally:
